@@ -24,11 +24,14 @@ class Concretizer:
         num = z3.is_true(m.eval(z3.And(visnum(c), vutf8(c)), model_completion=True))
         if num:
             b = str(mval(m, vnum(c))).encode()
+            n = mval(m, vlen(c))
+            if len(b) < n <= (1 << 21):
+                b = b.rjust(n, b'0')      # a decimal u64 may carry leading zeros: honour the model's length
         else:
             n = mval(m, vlen(c))
             idx = len(self.assigned)
             b = (b'x%d-' % idx)
-            if 0 < n <= 4096:
+            if 0 < n <= (1 << 21):
                 b = (b * n)[:n]
                 if n < 4 and any(x == b for x in self.assigned.values()):
                     b = bytes([0x61 + idx]) * n
